@@ -15,6 +15,7 @@ type Op struct {
 	NoFol bool   `json:"nofol,omitempty"`
 	N     int    `json:"n,omitempty"`   // size / fd slot / buffer size
 	Rec   bool   `json:"rec,omitempty"` // recursive Add/Remove ("/..." appended)
+	Raw   bool   `json:"raw,omitempty"` // P is passed to the API verbatim
 }
 
 // World operation kinds.
@@ -81,6 +82,11 @@ type Cfg struct {
 	// Terminal: the body may end with control calls blocked; evaluate the
 	// terminal state before draining (C05).
 	Terminal bool `json:"terminal,omitempty"`
+	// RemoveAllAtEnd: after the final WatchList, Remove every listed path and
+	// take a "removed" snapshot before closing.
+	RemoveAllAtEnd bool `json:"remove_all_at_end,omitempty"`
+	// Script: name of the testdata script this scenario replays (kqueue validation).
+	Script string `json:"script,omitempty"`
 }
 
 type Scenario struct {
